@@ -1,6 +1,9 @@
 //! xotharness — runs the real xot on generated cases and prints a transcript
 //! (`T<TAB>request<TAB>response`), statistics (`S<TAB>key<TAB>count`) and oracle failures
 //! (`F<TAB>property<TAB>json`).
+mod build_bytes;
+mod build_faults;
+mod build_gen;
 mod build_obs;
 mod build_oracle;
 mod build_render;
